@@ -221,8 +221,8 @@ func runC05(c *Ctx) {
 			}
 			t := eb.Of(e.Results[0], e.Instr)
 			_, ok := ana.MatchAny(t,
-				"call<(*strings.Builder).String>(obj(alloc<strings.Builder>, call<(*strings.Builder).Grow>(self, len(p1)), maybe(call<(*strings.Builder).WriteByte>(self, load(iaddr(faddr<enc>(p0), load(iaddr(p1, bin<+>(ind<+1>(-1), 1)))))))))",
-				"call<(*strings.Builder).String>(obj(alloc<strings.Builder>, maybe(call<(*strings.Builder).WriteByte>(self, load(iaddr(faddr<enc>(p0), load(iaddr(p1, bin<+>(ind<+1>(-1), 1)))))))))")
+				"call<(*strings.Builder).String>(obj(alloc<strings.Builder>, call<(*strings.Builder).Grow>(self, len(p1)), maybe(call<(*strings.Builder).WriteByte>(self, load(iaddr(faddr<#0>(p0), load(iaddr(p1, bin<+>(ind<+1>(-1), 1)))))))))",
+				"call<(*strings.Builder).String>(obj(alloc<strings.Builder>, maybe(call<(*strings.Builder).WriteByte>(self, load(iaddr(faddr<#0>(p0), load(iaddr(p1, bin<+>(ind<+1>(-1), 1)))))))))")
 			whole := false
 			for _, l := range rangeLoops(eb) {
 				if l.Coll.IsParam(1) {
